@@ -3,6 +3,7 @@
 from __future__ import annotations
 
 import ast
+import copy
 import struct
 from typing import Dict, List, Optional, Tuple
 
@@ -218,6 +219,20 @@ def pattern_raw_data(repo: Repo, rep, P: str):
             rep.violation(f"{P}.R2", construct, norm(st),
                           f"cell index [{row_idx}][{col_idx}] is not [line][track] (loop bounds {vars_})", where)
             continue
+        compose_obligation = None
+        if isinstance(val, ast.Subscript) and isinstance(val.slice, ast.Slice) and val.slice.step is None and isinstance(val.value, ast.Subscript) \
+                and isinstance(val.value.slice, ast.Slice) and val.value.slice.step is None and isinstance(val.value.value, ast.Name) \
+                and val.value.value.id in param and val.slice.upper is not None and val.value.slice.upper is not None:
+            # a slice of a slice of the argument: A[a:b][c:d] is A[a + c : a + d] provided a + d <= b (checked below)
+            a_ = val.value.slice.lower or ast.Constant(value=0)
+            c_ = val.slice.lower or ast.Constant(value=0)
+            compose_obligation = (val.value.slice.upper, a_, val.slice.upper)
+            val = ast.copy_location(ast.Subscript(
+                value=val.value.value,
+                slice=ast.Slice(lower=ast.BinOp(left=copy.deepcopy(a_), op=ast.Add(), right=copy.deepcopy(c_)),
+                                upper=ast.BinOp(left=copy.deepcopy(a_), op=ast.Add(), right=copy.deepcopy(val.slice.upper)), step=None),
+                ctx=ast.Load()), val)
+            ast.fix_missing_locations(val)
         if not (isinstance(val, ast.Subscript) and isinstance(val.slice, ast.Slice) and val.slice.step is None
                 and isinstance(val.value, ast.Name) and val.value.id in param):
             rep.inconclusive(f"{P}.R2", construct, norm(st), "cell bytes are not a slice of the argument", where)
@@ -288,11 +303,29 @@ def pattern_raw_data(repo: Repo, rep, P: str):
         except alg.NotAlgebraic as e:
             rep.inconclusive(f"{P}.R2", construct, norm(st), f"offset not polynomial: {e}", where)
             continue
+        if compose_obligation is not None:
+            # b − (a + d) >= 0 for every line < lines, track < tracks: written over J = lines − 1 − line >= 0, K = tracks − 1 − track >= 0
+            # (and lines, tracks, J, K >= 0) the difference must have no negative coefficient
+            try:
+                b_, a2_, d_ = (alg.to_poly(x, leaf) for x in compose_obligation)
+                diff = b_ - (a2_ + d_)
+                diff = diff.subst(row_idx, alg.Poly.sym("self.lines") - 1 - alg.Poly.sym("J")).subst(col_idx, alg.Poly.sym("self.tracks") - 1 - alg.Poly.sym("K"))
+                proven = all(c >= 0 for c in diff.t.values())
+            except Exception:
+                proven = False
+            if not proven:
+                rep.inconclusive(f"{P}.R2", construct, norm(st)[:160], "a slice of a slice: that the inner slice stays inside the outer one is not shown", where)
+                continue
         L, T = alg.Poly.sym(row_idx), alg.Poly.sym(col_idx)
         want = (L * alg.Poly.sym("self.tracks") + T) * cell_size
         text = f"cell [{row_idx}][{col_idx}] ← {norm(val)[:80]}"
         if lo == want:
             rep.ok(f"{P}.R2", construct, text, f"offset ≡ {cell_size}·(line·tracks + track)")
+        elif (lo.symbols() | hi.symbols()) - {row_idx, col_idx, "self.tracks", "self.lines"}:
+            # a name whose value is not known here (a size kept in an attribute, a computed stride): nothing definite
+            rep.inconclusive(f"{P}.R2", construct, text,
+                             f"cell offset {lo} mentions quantities that are not resolved: {sorted((lo.symbols() | hi.symbols()) - {row_idx, col_idx, 'self.tracks', 'self.lines'})}", where)
+            continue
         else:
             rep.violation(f"{P}.R2", construct, text,
                           f"cell offset is {lo}, expected row-major {want}", where)
